@@ -1,2 +1,8 @@
 import MpdProofs.Lemmas.Bytes
 import MpdProofs.C20
+import MpdProofs.Lemmas.Frame
+import MpdProofs.C19
+import MpdProofs.Lemmas.Parser
+import MpdProofs.Lemmas.Builder
+import MpdProofs.Lemmas.Conn
+import MpdProofs.C02
